@@ -183,6 +183,8 @@ type World struct {
 	parser       vmcommon.ESDTTransferParser
 	// toConsume: outputs of this event's successful calls, used up by their owner at the end of the event
 	toConsume []*vmcommon.VMOutput
+	// Broken: the world could not be built (recorded as a violation); no event can be applied
+	Broken bool
 	// held: message bytes of earlier outputs still referenced by their receiver
 	held []retained
 	// toReuse: executions of this event whose input buffers their owner reuses at the end of the event
